@@ -104,6 +104,23 @@ where
         same(&(&pa * s), &sc, Some(a.len()), "&a * s")?;
         same(&(pa.clone() * s), &sc, Some(a.len()), "a * s")?;
     }
+    // named constructors: quadratic(a,b,c) = a x^2 + b x + c, cubic(a,b,c,d) = a x^3 + b x^2 + c x + d
+    if a.len() >= 3 {
+        let q = Polynomial::quadratic(a[0], a[1], a[2]);
+        ensure!(coeffs_of(&q) == vec![a[2], a[1], a[0]], "quadratic({:?},{:?},{:?}) stores {:?}", a[0], a[1], a[2], coeffs_of(&q));
+        for &x in dom.pts.iter() {
+            ensure!(q.eval(x) == a[0] * x * x + a[1] * x + a[2], "quadratic(a,b,c).eval");
+        }
+        if !b.is_empty() {
+            let cu = Polynomial::cubic(a[0], a[1], a[2], b[0]);
+            ensure!(coeffs_of(&cu) == vec![b[0], a[2], a[1], a[0]], "cubic stores {:?}", coeffs_of(&cu));
+        }
+    }
+    {
+        let mut pm = pa.clone();
+        pm.coeffs().push(from(5));
+        ensure!(pm.size() == a.len() + 1 && pm[a.len()] == from(5) && coeffs_of(&pa) == a, "coeffs() does not expose the coefficient vector of this polynomial only");
+    }
     // operands untouched, clone equal
     ensure!(coeffs_of(&pa) == a && coeffs_of(&pb) == b, "operands modified");
     ensure!(coeffs_of(&pa.clone()) == a, "clone differs");
@@ -114,6 +131,10 @@ where
         if !a.is_empty() {
             ensure!(va == m_eval(a, x), "eval(a, {:?}) = {:?} expected {:?}", x, va, m_eval(a, x));
         }
+        // a result built from a non-empty operand must itself be evaluable (an all-zero operand is not the empty polynomial)
+        ensure!(sum.size() > 0 || (a.is_empty() && b.is_empty()), "a + b is empty although an operand is not");
+        ensure!(dif.size() > 0 || (a.is_empty() && b.is_empty()), "a - b is empty although an operand is not");
+        ensure!(prod.size() > 0 || a.is_empty() || b.is_empty(), "a * b is empty although both operands hold coefficients ({:?} * {:?})", a, b);
         if sum.size() > 0 {
             ensure!(sum.eval(x) == va + vb, "(a+b)({:?}) = {:?} but a(x)+b(x) = {:?}", x, sum.eval(x), va + vb);
         }
@@ -348,6 +369,21 @@ impl Sut for St {
         }
         self.check()
     }
+    fn warm(&self) {
+        if self.p.size() > 0 {
+            let _ = catch(|| self.p.eval(r(2)));
+            let _ = catch(|| self.p.derivative());
+        }
+        let _ = catch(|| self.p.is_zero());
+        let _ = catch(|| self.p.degree());
+        let _ = catch(|| self.p.polydiv(&Polynomial::new(vec![r(1), r(1)])));
+        if self.p.size() > 0 {
+            // a one-entry memo keeps only the LAST query: end with the order the check asks for first
+            let w = self.p.size() % 3;
+            let _ = catch(|| self.p.derivative_at(r(2), (w + 1) % 3));
+            let _ = catch(|| self.p.derivative_n(w));
+        }
+    }
     fn check(&self) -> Result<(), String> {
         let g = coeffs_of(&self.p);
         // the stored list may differ from the model only by trailing zeros
@@ -359,6 +395,29 @@ impl Sut for St {
             }
         }
         ensure!(self.p.is_zero() == self.m.iter().all(|c| c.is_zero()), "is_zero");
+        // differentiation of the object that went through the history (not of a fresh twin)
+        if !g.is_empty() {
+            let w = g.len() % 3;
+            let models: Vec<Vec<Rat>> = {
+                let mut v = vec![self.m.clone()];
+                for _ in 0..2 {
+                    let last = v.last().unwrap().clone();
+                    v.push(if last.is_empty() { vec![] } else { m_deriv(&last, &|k| r(k)) });
+                }
+                v
+            };
+            for order in [w, (w + 1) % 3, (w + 2) % 3] {
+                let expect = models[order].clone();
+                if order > 0 && models[order - 1].is_empty() {
+                    continue; // differentiating the empty polynomial is outside the claim
+                }
+                let dn = self.p.derivative_n(order);
+                ensure!(strip(&coeffs_of(&dn)) == strip(&expect), "derivative_n({}) of the edited object = {:?} expected {:?}", order, coeffs_of(&dn), expect);
+                if !expect.is_empty() {
+                    ensure!(self.p.derivative_at(r(2), order) == m_eval(&expect, r(2)), "derivative_at(2, {}) of the edited object", order);
+                }
+            }
+        }
         Ok(())
     }
     fn classes(&self, hits: &mut Vec<&'static str>) {
@@ -394,6 +453,10 @@ fn main() {
     explore(&ctx, "ring-operation histories", inits.clone(), BfsOpts { max_depth: depth, state_cap: ctx.pick(1_000_000, 20_000_000) });
     if ctx.quick() {
         crosscheck_stateright(&ctx, "ring-operation histories", inits, depth);
+    }
+    {
+        let inits = vec![St { p: Polynomial::empty(), m: vec![] }, St { p: Polynomial::new(vec![r(1), r(-2), r(1)]), m: vec![r(1), r(-2), r(1)] }];
+        explore_replayed(&ctx, "clone-free histories on one Polynomial<Rat>", inits, BfsOpts { max_depth: ctx.pick(6, 7), state_cap: 2_000_000 });
     }
     std::process::exit(ctx.finish());
 }
